@@ -205,7 +205,11 @@ def run(ctx):
         "translator target c12sharing: shapes are decided by type NAME (Arc, Rc, Mutex, RwLock, Cell …; renames/aliases of these names are an extraction failure), structs of the crate are inlined, "
         "enums and foreign types are opaque (.ext); a RawList method 'writes' iff its body contains a write primitive, a call through drop_fn/clone_fn, a field assignment or a call of a writing method on self",
         "std's Mutex admits one holder, RwLock one writer or many readers, Arc counts are atomic read-modify-writes, Rc counts are plain loads and stores (the machines of Model/ConcShare) — modelled, not verified",
-        "modelled, not verified: data races inside machine code, the global TypeRegistry mutex and the symbol_table interner are exercised by the stress run only "
+        "translator target c12globals (round 4): sections of a function = the code between two occurrences of a lock-shaped static's name; table operations by METHOD NAME (lookup: get / contains_key / entry / iter …; insert: insert / push / "
+        "or_insert_with / extend / set …); entryCells by type NAME across src/ (crate structs / enums inlined by name); nameSources by the identifiers in each arm of the match over ty.description in rust_type_to_roto_type; "
+        "a guard handed to a helper function is outside the scan. The external symbol_table interner is not modelled at source level: its contract (one identifier per text under concurrent interning) is decided by the verified "
+        "checker Intern.consistent on the observations of hook verif_hooks::c12::intern; that a read-locked lookup section and an exclusive insert section are atomic steps is the lock machine (no_foreign_write_while_held, global_insert_section_alone)",
+        "modelled, not verified: data races inside machine code are exercised by the stress run only "
         "(thorough tier repeats the stress cases in a ThreadSanitizer build, which instruments the Rust side but not the JIT-generated code)",
     ]
     return ctx.finish(
